@@ -17,7 +17,8 @@ Inductive callid :=
 | KRegisterWrite | KTagsInPlace | KTagsRebind
 | KTestRunning | KClearRunning | KTimerCreate | KTimerStart | KTimerCancel | KSendHeartbeat
 | KStoreRequest | KStoreResponse | KAppendResponse | KWaitFor | KGetFrame | KRpcRemove
-| KTestClosing | KUnlessClosing | KOther.
+| KTestClosing | KUnlessClosing | KSendConnClose | KIfWasOpen
+| KExcHead | KExcRemove | KExcPop | KOther.
 
 Inductive tok :=
 | TWith (l : lockid) | TEndWith
@@ -51,7 +52,8 @@ Definition callid_eqb (a b : callid) : bool :=
   | KTimerStart, KTimerStart | KTimerCancel, KTimerCancel | KSendHeartbeat, KSendHeartbeat
   | KStoreRequest, KStoreRequest | KStoreResponse, KStoreResponse | KAppendResponse, KAppendResponse
   | KWaitFor, KWaitFor | KGetFrame, KGetFrame | KRpcRemove, KRpcRemove
-  | KTestClosing, KTestClosing | KUnlessClosing, KUnlessClosing
+  | KTestClosing, KTestClosing | KUnlessClosing, KUnlessClosing | KSendConnClose, KSendConnClose
+  | KIfWasOpen, KIfWasOpen | KExcHead, KExcHead | KExcRemove, KExcRemove | KExcPop, KExcPop
   | KOther, KOther => true
   | _, _ => false
   end.
